@@ -522,3 +522,179 @@ Proof.
   replace (b1 * 16777216 + b2 * 65536 + b3 * 256 + b4) with ((b2 * 65536 + b3 * 256 + b4) + b1 * 16777216) by lia.
   rewrite Z.mod_add by lia. rewrite Z.mod_small by lia. reflexivity.
 Qed.
+
+Ltac kill H Hf := inversion H; subst; simpl in Hf; discriminate Hf.
+Ltac rdstep w H Hf :=
+  match type of H with
+  | context [rd_wire ?k ?s] =>
+    match goal with
+    | Hs : sfx w s |- _ =>
+      let E := fresh "E" in let b := fresh "b" in let s' := fresh "s" in
+      let Hs' := fresh "Hs" in let Ho' := fresh "Ho" in
+      destruct (rd_wire k s) as [b s'|?c s'|] eqn:E;
+      [ destruct (rd_wire_ok w k s b s' Hs E) as (Hs' & Ho' & _) | kill H Hf | kill H Hf ];
+      cbv beta zeta in H
+    end
+  end.
+Ltac fin H HL := inversion H; subst; split; [assumption | eexists; split; [exact HL | lia]].
+
+Lemma read_frame_boundary w st v st' :
+  sfx w st -> wf_bytes w = true -> read_frame st = (v, st') -> is_frame v = true ->
+  sfx w st' /\ exists l, hdr_len w (off st) = Some l /\ off st' = off st + 8 + l.
+Proof.
+  intros Hs Hwf H Hf. unfold read_frame in H.
+  destruct (rd_wire 4 st) as [w1 s1|c s1|] eqn:E1; [|kill H Hf|kill H Hf].
+  destruct (rd_wire_ok w 4 st w1 s1 Hs E1) as (Hs1 & Ho1 & _).
+  destruct (rd_wire4_inv w st w1 s1 Hs E1) as (a1 & a2 & a3 & a4 & r1 & Hw0 & Hw1 & Hr1).
+  destruct (rd_wire 4 s1) as [w2 s2|c s2|] eqn:E2; [|kill H Hf|kill H Hf].
+  destruct (rd_wire_ok w 4 s1 w2 s2 Hs1 E2) as (Hs2 & Ho2 & _).
+  destruct (rd_wire4_inv w s1 w2 s2 Hs1 E2) as (b1 & b2 & b3 & b4 & r2 & Hw0' & Hw2 & Hr2).
+  assert (HL : hdr_len w (off st) = Some (dec32 w2 mod 2^24)).
+  { rewrite Hw2. eapply hdr_len_at; [exact Hs|exact Hwf|]. rewrite Hw0, <- Hr1, Hw0'. reflexivity. }
+  assert (Hlen0 : 0 <= dec32 w2 mod 2^24) by (apply Z.mod_pos_bound; reflexivity).
+  change (Z.max 0 4) with 4 in *.
+  cbv zeta in H.
+  set (len := dec32 w2 mod 2^24) in *.
+  destruct (dec32 w1 <? 2^31).
+  - (* DATA *)
+    rdstep w H Hf. destruct (dec32 w1 =? 0); [kill H Hf|]. fin H HL.
+  - set (typ := dec32 w1 mod 2^16) in *.
+    destruct (typ =? 1).
+    { destruct (len <? 10) eqn:L; [kill H Hf|]. apply Z.ltb_ge in L.
+      rdstep w H Hf. rdstep w H Hf. rdstep w H Hf. rdstep w H Hf.
+      assert (Hu : u32 (len - 10) = len - 10).
+      { unfold u32. apply Z.mod_small. unfold len. pose proof (Z.mod_pos_bound (dec32 w2) (2^24) ltac:(reflexivity)).
+        change (2^32) with 4294967296. change (2^24) with 16777216 in *. lia. }
+      rewrite Hu in H.
+      match goal with Hs : sfx w ?s |- _ =>
+        match type of H with read_header_part _ _ _ _ _ _ _ s = _ =>
+          destruct (header_part_ok w _ _ _ _ _ _ _ s v st' Hs H Hf ltac:(lia)) as [Hsf Hof] end end.
+      change (Z.max 0 1) with 1 in *.
+      split; [exact Hsf|]. eexists. split; [exact HL|]. lia. }
+    destruct ((typ =? 2) || (typ =? 8)) eqn:T28.
+    { destruct (len <? 4) eqn:L; [kill H Hf|]. apply Z.ltb_ge in L.
+      rdstep w H Hf.
+      assert (Hu : u32 (len - 4) = len - 4).
+      { unfold u32. apply Z.mod_small. unfold len. pose proof (Z.mod_pos_bound (dec32 w2) (2^24) ltac:(reflexivity)).
+        change (2^32) with 4294967296. change (2^24) with 16777216 in *. lia. }
+      rewrite Hu in H.
+      assert (Hk : 0 <= typ).
+      { apply orb_true_iff in T28. destruct T28 as [T|T]; apply Z.eqb_eq in T; lia. }
+      match goal with Hs : sfx w ?s |- _ =>
+        match type of H with read_header_part _ _ _ _ _ _ _ s = _ =>
+          destruct (header_part_ok w _ _ _ _ _ _ _ s v st' Hs H Hf Hk) as [Hsf Hof] end end.
+      split; [exact Hsf|]. eexists. split; [exact HL|]. lia. }
+    destruct (typ =? 3).
+    { destruct (len =? 8) eqn:L; cbn [negb] in H; [|kill H Hf]. apply Z.eqb_eq in L.
+      rdstep w H Hf. rdstep w H Hf.
+      match type of H with (if ?c then _ else _) = _ => destruct c end; [kill H Hf|].
+      match type of H with (if ?c then _ else _) = _ => destruct c end; [kill H Hf|].
+      fin H HL. }
+    destruct (typ =? 4).
+    { rdstep w H Hf.
+      match type of H with (if ?c then _ else _) = _ => destruct c eqn:N end; [kill H Hf|].
+      apply Z.ltb_ge in N.
+      match type of H with (if negb (len =? ?x) then _ else _) = _ => destruct (len =? x) eqn:L end; cbn [negb] in H; [|kill H Hf].
+      apply Z.eqb_eq in L.
+      match type of H with context [read_settings ?n ?s ?a] =>
+        destruct (read_settings n s a) as [[c0 s0]|[l0 s0]] eqn:ER end; [kill H Hf|].
+      match goal with Hs : sfx w ?s |- _ =>
+        match type of ER with read_settings _ s _ = _ =>
+          destruct (read_settings_ok w _ s _ _ _ Hs ER) as [Hsf Hof] end end.
+      inversion H; subst. split; [exact Hsf|]. eexists. split; [exact HL|].
+      rewrite Z2Nat.id in Hof by lia. lia. }
+    destruct (typ =? 6).
+    { destruct (len =? 4) eqn:L; cbn [negb] in H; [|kill H Hf]. apply Z.eqb_eq in L.
+      rdstep w H Hf.
+      match type of H with (if ?c then _ else _) = _ => destruct c end; [kill H Hf|].
+      match type of H with (if ?c then _ else _) = _ => destruct c end; [kill H Hf|].
+      fin H HL. }
+    destruct (typ =? 7).
+    { rdstep w H Hf.
+      match type of H with (if ?c then _ else _) = _ => destruct c end; [kill H Hf|].
+      destruct (len =? 8) eqn:L; cbn [negb] in H; [|kill H Hf]. apply Z.eqb_eq in L.
+      rdstep w H Hf. fin H HL. }
+    destruct (typ =? 9).
+    { rdstep w H Hf.
+      match type of H with (if ?c then _ else _) = _ => destruct c end; [kill H Hf|].
+      destruct (len =? 8) eqn:L; cbn [negb] in H; [|kill H Hf]. apply Z.eqb_eq in L.
+      rdstep w H Hf. fin H HL. }
+    kill H Hf.
+Qed.
+
+Definition shaped (v : val) : Prop := exists t r, v = VL (VZ t :: r).
+Lemma header_part_shape kind ver flags len sid fixed n st :
+  shaped (fst (read_header_part kind ver flags len sid fixed n st)).
+Proof.
+  unfold read_header_part, shaped, v_io, v_desync, v_unsup, v_serr.
+  destruct (uncork n st) as [c|[st1|]]; simpl; eauto.
+  destruct (parse_block zread st1) as [c st2 m|h hl e st2 m| |]; simpl; eauto.
+  - destruct (((c =? 1) && (lim st2 =? 0)) || negb (lim st2 =? 0)); simpl; eauto.
+  - repeat match goal with |- context [if ?c then _ else _] => destruct c end; simpl; eauto.
+Qed.
+Lemma read_frame_shape st : shaped (fst (read_frame st)).
+Proof.
+  unfold read_frame.
+  repeat first
+    [ match goal with |- context [rd_wire ?k ?s] => destruct (rd_wire k s); cbv beta zeta end
+    | match goal with |- context [read_settings ?n ?s ?a] => destruct (read_settings n s a) as [[? ?]|[? ?]] end
+    | match goal with |- shaped (fst (read_header_part _ _ _ _ _ _ _ _)) => apply header_part_shape end
+    | match goal with |- context [if ?c then _ else _] => destruct c end ];
+  try apply header_part_shape;
+  unfold shaped, v_io, v_desync, v_unsup, v_serr; simpl; eauto.
+Qed.
+
+Theorem read_stream_bounds w : wf_bytes w = true -> forall fuel st,
+  sfx w st -> bounds_ok w (off st) (read_stream fuel st) = true.
+Proof.
+  intros Hwf. induction fuel as [|f IH]; intros st Hs; [reflexivity|].
+  cbn [read_stream]. destruct (read_frame st) as [v st'] eqn:E.
+  pose proof (read_frame_shape st) as Hsh. rewrite E in Hsh. cbn [fst] in Hsh. destruct Hsh as (t & r & Hv). subst v.
+  cbn [bounds_ok is_stop].
+  destruct (t <? 0) eqn:Et; [reflexivity|].
+  assert (Hf : is_frame (VL (VZ t :: r)) = true) by (simpl; apply Z.leb_le; apply Z.ltb_ge in Et; lia).
+  destruct (read_frame_boundary w st _ st' Hs Hwf E Hf) as (Hs' & l & HL & Ho).
+  rewrite HL. rewrite Ho, Z.eqb_refl. cbn [orb andb]. rewrite <- Ho. apply IH. exact Hs'.
+Qed.
+
+(* ---------- central theorem, sub-language: operations 2 (raw block parse) and 4 (raw wire read) ---------- *)
+Definition wf_C39 (i : val) : bool :=
+  match i with
+  | VL (VZ op :: l) =>
+    if op =? 2 then
+      match l with
+      | [VZ _; VB b] => match parse_block rd_plain b with PUnsup | PDesync => false | _ => true end
+                        (* names within the tabulated ToLower *)
+      | _ => false
+      end
+    else if op =? 4 then
+      match l with
+      | [VB w; VL cl] => wf_bytes w && match all_some (map dec_chunk cl) with Some _ => true | None => false end
+      | _ => false
+      end
+    else false
+  | _ => false
+  end.
+Theorem central_partial i : wf_C39 i = true -> kf_C39 i = 0 -> prop_C39 i (run_C39 i) = true.
+Proof.
+  intros Hwf _. destruct i as [z|b|l]; try discriminate.
+  destruct l as [|[op| |] l]; try discriminate.
+  cbn [wf_C39] in Hwf.
+  destruct (op =? 2) eqn:E2.
+  - apply Z.eqb_eq in E2. subst op.
+    destruct l as [|[z1| |] [|[|b1|] [|? ?]]]; try discriminate.
+    cbn [prop_C39 run_C39]. unfold parse_plain.
+    pose proof (parse_block_mx rd_plain b1) as Hm.
+    destruct (parse_block rd_plain b1) as [c s m|h hl e s m| |]; try discriminate; cbn [v_pres].
+    + apply Z.leb_le. exact Hm.
+    + destruct (e =? 0); apply Z.leb_le; exact Hm.
+  - destruct (op =? 4) eqn:E4; [|discriminate].
+    apply Z.eqb_eq in E4. subst op.
+    destruct l as [|[|w|] [|[| |cl] [|? ?]]]; try discriminate.
+    apply andb_true_iff in Hwf. destruct Hwf as [Hw Hc].
+    cbn [prop_C39 run_C39]. destruct (all_some (map dec_chunk cl)) as [cs|]; [|discriminate].
+    apply (read_stream_bounds w Hw 64 (init_state w cs)). split; [simpl; lia|reflexivity].
+Qed.
+Example wf_example :
+  wf_C39 (VL [VZ 4; VB w_bound; VL []]) = true /\ wf_C39 (VL [VZ 2; VZ 1; VB w_alloc]) = true.
+Proof. vm_compute. split; reflexivity. Qed.
